@@ -273,6 +273,12 @@ func (fn *wfn) variadicLibCall(c *ast.CallExpr, r wcall) ([]wpre, []string) {
 			parts = append(parts, v)
 			continue
 		}
+		if lf.AnyArgs { // world_values.go
+			p, v := fn.anyArg(a, r.key)
+			pres = append(pres, p...)
+			elems = append(elems, v)
+			continue
+		}
 		AT := fn.info().Types[a].Type
 		if AT == nil || t.kindOf(AT) != wkBytes {
 			t.fail(a, "argument of type %s of the variadic parameter of %s (supported: strings and []byte, handed over as one list)", AT, r.key)
